@@ -615,6 +615,7 @@ class Runner:
     ):
         self.w = world
         self.plan = plan or Plan()
+        self.plan.runner = self  # (a plan may look at the run so far, e.g. the number of timer expiries)
         self.pacing = {"src_calls": 1, "dst_calls": 1, "dst_idle": 0, "src_idle": 0}
         if pacing:
             self.pacing.update(pacing)
